@@ -89,7 +89,11 @@ pub fn set_options(
 
     // --color-only is used for interactive.diffFilter (git add -p) and side-by-side cannot be used
     // there (does not emit lines in 1-1 correspondence with raw git output). See #274.
-    if config::user_supplied_option("color_only", arg_matches) {
+    let color_only_in_git_config = git_config
+        .as_ref()
+        .and_then(|git_config| git_config.get::<bool>("delta.color-only"))
+        .unwrap_or(false);
+    if config::user_supplied_option("color_only", arg_matches) || color_only_in_git_config {
         builtin_features.remove("side-by-side");
     }
 
